@@ -924,6 +924,7 @@ func checkFlagWriters(p *Prog, l *Ledger, rule string) {
 // checkParserLines: every AST node Line field read by the interpreter is written by the parser from a token line.
 func checkParserLines(p *Prog, l *Ledger) {
 	n := 0
+	kinds := map[string]bool{}
 	for _, fn := range p.ModuleFuncs() {
 		if fn.Package() == nil || fn.Package().Pkg.Name() != "parser" {
 			continue
@@ -942,6 +943,7 @@ func checkParserLines(p *Prog, l *Ledger) {
 				return
 			}
 			n++
+			kinds[tn] = true
 			key := p.FuncKey(fn) + "#" + tn + ".Line"
 			d := describe(st.Val)
 			if strings.HasSuffix(d, ".Line") {
@@ -951,8 +953,8 @@ func checkParserLines(p *Prog, l *Ledger) {
 			}
 		})
 	}
-	if n < 15 {
-		l.Violate("C06/S4-parser-line/vacuity", "parser Line stores", "", fmt.Sprintf("only %d Line stores found in the parser", n))
+	if len(kinds) < 12 {
+		l.Violate("C06/S4-parser-line/vacuity", "parser Line stores", "", fmt.Sprintf("the parser sets the Line of only %d node kinds (%d stores)", len(kinds), n))
 	}
 }
 
